@@ -21,7 +21,7 @@ Theorem model_mirrors_source :
   GenPat.imm_excluded_types = PatSource.imm_excluded /\
   GenPat.any_cases_shared = PatSource.any_shared /\
   GenPat.any_document_excluded_for = PatSource.any_document_excluded /\
-  GenPat.root_walk_up_after = PatSource.root_walk_up /\
+  GenPat.left_check_skipped_after = PatSource.left_any_like /\
   GenPat.name_test_attribute_axes = PatSource.attribute_axes /\
   GenPat.step_ops = PatSource.compiled_step_ops /\
   GenPat.head_ops = PatSource.compiled_head_ops /\
@@ -57,39 +57,52 @@ Theorem select_chain : forall D steps, wf_doc D = true -> steps <> [] -> forall 
 Proof. exact sel_steps_reach. Qed.
 Print Assumptions select_chain.
 
-(** '/'-only step chains: the matcher returns exactly the node matched by the first step. *)
-Theorem child_chain_exact : forall D steps, wf_doc D = true -> wf_steps steps -> steps <> [] ->
-  all_child (tl steps) = true -> forall n g,
-  step_pattern D (compile_steps steps) n = (Some g, true) <-> reach D steps n g.
-Proof. exact chain_child. Qed.
-Print Assumptions child_chain_exact.
+(** The selection by a path, split at any step: the steps to the right form a chain from the selected
+    node, the steps to the left select the parent of the chain's first node ('/') or an ancestor-or-self of
+    that parent ('//'). *)
+Theorem select_split : forall D h Q sp st r n, wf_doc D = true ->
+  (Sel D h (Q ++ (sp, st) :: r) n <->
+   exists c, reach D ((sp, st) :: r) n c /\ LeftOK D h Q sp c).
+Proof. exact sel_split. Qed.
+Print Assumptions select_split.
 
-(** Nearest suffices: when nothing but '//' stands to the left of a '//', whatever chain of ancestors
-    the expression semantics uses, the matcher (nearest satisfying ancestor, no backtracking) succeeds,
-    with a context at or below the chain's; and whatever the matcher finds is a chain. *)
-Theorem nearest_suffices : forall D steps, wf_doc D = true -> wf_steps steps -> steps <> [] ->
-  desc_then_child (tl steps) = true -> forall n,
-  (forall g, step_pattern D (compile_steps steps) n = (Some g, true) -> reach D steps n g) /\
-  (forall c, reach D steps n c ->
-             exists g, step_pattern D (compile_steps steps) n = (Some g, true) /\ In c (aos D g)).
-Proof. exact chain_any. Qed.
-Print Assumptions nearest_suffices.
+(** Whatever the compiled steps find is a chain of the expression semantics (whatever stands to their
+    left). *)
+Theorem steps_sound : forall D S, wf_doc D = true -> wf_steps S -> S <> [] -> forall acc n g,
+  step_pattern D (compile_steps D acc (last_step acc) S) n = (Some g, true) -> reach D S n g.
+Proof. exact gen_sound. Qed.
+Print Assumptions steps_sound.
 
-(** One location path pattern, every head (relative, '/', '//', id()/key()). *)
+(** Completeness of the compiled steps, given the theorem for every proper prefix of the path (this is
+    what re-entering stepPattern on the steps to the left provides): if the expression semantics has a
+    chain whose left part is selected, the matcher succeeds with a context from which the left part is
+    selected as well — the nearest ancestor when the step to the left can match any ancestor, the nearest
+    ancestor from whose parent the steps to the left match when that step is exact. *)
+Theorem steps_complete : forall D, wf_doc D = true -> forall h P, wf_steps P ->
+  (forall Q S, P = Q ++ S -> S <> [] -> (Q = [] -> h <> HRel) -> Full D h Q) ->
+  forall S Q sp st r, P = Q ++ S -> S = (sp, st) :: r ->
+  forall n,
+  (exists c, reach D S n c /\ LeftOK D h Q sp c) ->
+  exists g, step_pattern D (compile_steps D (acc_of D h P Q sp) (last_step (acc_of D h P Q sp)) S) n = (Some g, true)
+            /\ LeftOK D h Q sp g.
+Proof. exact gen_complete. Qed.
+Print Assumptions steps_complete.
+
+(** One location path pattern, every head (relative, '/', '//', id()/key()), every shape. *)
 Theorem match_path_iff_select : forall D p n,
-  wf_doc D = true -> wf_path p -> no_left_of_any p = true -> n < length D ->
+  wf_doc D = true -> wf_path p -> n < length D ->
   (match_path D p n = true <-> exists a, In a (aos D n) /\ In n (sel_path D p a)).
 Proof. exact match_path_iff. Qed.
 Print Assumptions match_path_iff_select.
 
-(** C09 under the syntactic guard: unions of paths in which no '/' stands to the left of a '//', except
-    the leading '/' of an absolute path. *)
-Theorem match_iff_select_partial : forall D P n,
-  wf_doc D = true -> wf_pattern P -> guard P = true -> n < length D ->
+(** C09: for every union of location path patterns, every well-formed document and every node, the
+    matcher says "match" exactly when some ancestor-or-self context selects the node.  No guard. *)
+Theorem match_iff_select : forall D P n,
+  wf_doc D = true -> wf_pattern P -> n < length D ->
   (matches D P n = true <->
    exists p a, In p P /\ In a (aos D n) /\ In n (sel_path D p a)).
 Proof. exact matches_iff_selects. Qed.
-Print Assumptions match_iff_select_partial.
+Print Assumptions match_iff_select.
 
 (** The compiler's positional flag is sound for the generator's predicate language, so for generated
     patterns the hypothesis on predicates is discharged. *)
@@ -99,40 +112,19 @@ Proof. exact flag_sound. Qed.
 Print Assumptions flag_sound_concrete.
 
 Theorem match_iff_select_concrete : forall D P n,
-  wf_doc D = true -> c_shape D P = true -> c_guard D P = true -> n < length D ->
+  wf_doc D = true -> c_shape D P = true -> n < length D ->
   (c_match D P n = true <-> selects D (map (path_of D) P) n).
 Proof. exact c_match_iff_select. Qed.
 Print Assumptions match_iff_select_concrete.
 
-(** One direction needs no guard at all: whatever pattern, whenever the matcher says "match" some
-    ancestor-or-self context selects the node (there are no false positives). *)
-Theorem match_sound : forall D P n,
-  wf_doc D = true -> wf_pattern P -> n < length D ->
-  matches D P n = true -> selects D P n.
-Proof. exact matches_sound. Qed.
-Print Assumptions match_sound.
+(** The former counterexamples (K14: /a//b on <x><a><b/></a></x>; K15: c/a//b on
+    <c><a><y><a><b/></a></y></a></c>) are decided as the expression semantics says. *)
+Example k14_repaired : matches k14_doc k14_pat 3 = false /\ selectsb k14_doc k14_pat 3 = false.
+Proof. destruct k14_facts as [_ [M S]]. auto. Qed.
+Example k15_repaired : matches k15_doc k15_pat 5 = true /\ selectsb k15_doc k15_pat 5 = true.
+Proof. destruct k15_facts as [_ [M S]]. auto. Qed.
 
-(** Outside the guard the converse is false for the code as it is: the nearest-ancestor choice never
-    backtracks. *)
-Theorem match_iff_select_refuted_neg : exists P D n,     (* K15: c/a//b on <c><a><y><a><b/></a></y></a></c> *)
-  wf_doc D = true /\ wf_pattern P /\ n < length D /\
-  matches D P n = false /\ selects D P n.
-Proof.
-  exists k15_pat, k15_doc, 5. destruct k15_facts as [W [M [S _]]].
-  split; [exact W|]. split.
-  - intros p [E|[]]. subst p. split; [|reflexivity]. repeat constructor.
-  - split; [vm_compute; auto|]. split; [exact M|]. apply selectsb_spec. exact S.
-Qed.
-Print Assumptions match_iff_select_refuted_neg.
-
-(** The witness is outside the guard (so the partial theorem is not contradicted); the former K14
-    witness /a//b on <x><a><b/></a></x> is inside it and is decided correctly. *)
-Example refutation_outside_guard : guard k15_pat = false.
-Proof. apply k15_facts. Qed.
-Example k14_repaired : guard k14_pat = true /\ matches k14_doc k14_pat 3 = false /\ selectsb k14_doc k14_pat 3 = false.
-Proof. destruct k14_facts as [_ [M [S G]]]. auto. Qed.
-
-(** and the hypotheses of the partial theorem are satisfiable with non-trivial outcomes:
+(** The hypotheses of the theorem are satisfiable with non-trivial outcomes:
     a[@x]//b[position() = last()][1] | //c/@y   on   <a x=""><b/><d><b/><b/></d><c y=""/></a>
     (names a=0 b=1 c=2 d=3 x=4 y=5): matches the first b (node 3), the last b under d (node 6) and @y (8). *)
 Definition ex_doc : doc :=
@@ -142,8 +134,8 @@ Definition ex_pat : list cpath :=
                (SDesc, mkCS false (TName 1) [CPosLast; CNum 1])];
    mkCP CHAbs [(SDesc, mkCS false (TName 2) []); (SChild, mkCS true (TName 5) [])]].
 
-Example partial_hypotheses_satisfiable :
-  wf_doc ex_doc = true /\ c_shape ex_doc ex_pat = true /\ c_guard ex_doc ex_pat = true /\
+Example hypotheses_satisfiable :
+  wf_doc ex_doc = true /\ c_shape ex_doc ex_pat = true /\
   map (c_match ex_doc ex_pat) (seq 0 (length ex_doc)) =
     [false; false; false; true; false; false; true; false; true] /\
   map (c_select ex_doc ex_pat) (seq 0 (length ex_doc)) =
